@@ -2371,6 +2371,8 @@ class Exec(Engine):
         if spec is None:
             return self.unroll_while(node, st, int(os.environ.get('PYVC_UNROLL', '0')))
         self.check_header(spec, ast.unparse(node.test), ordn, node)
+        if spec.exit_post is not None or spec.body_facts:
+            raise Undecided('exit_post / body_facts are not supported on while loop #%d' % ordn, node)
         old = self.entry_state
         out = []
         for name, text in spec.invariants:
@@ -2397,7 +2399,21 @@ class Exec(Engine):
                     out.extend(self.run_block(node.orelse, s2) if node.orelse else [('normal', None, s2)])
                     continue
                 self.oblige('dec', 'nonneg@loop%d' % ordn, s2, Ge(dec0, IntV(0)), node)
+                outer_mark = s2.ghost.get('__iter_event_start__', 0)
+                s2.ghost['__iter_event_start__'] = len(s2.events)
+                iter_snapshot = s2.copy()
                 for kind, payload, s3 in self.run_block(node.body, s2):
+                    self.iter_state = iter_snapshot
+                    try:
+                        for name, text in spec.body_always:
+                            self.oblige('always', '%s@loop%d' % (name, ordn), s3, self.inv_clause(text, s3, old), node,
+                                        note='iteration outcome: %s' % kind)
+                        if kind in ('normal', 'continue'):
+                            for name, text in spec.body_post:
+                                self.oblige('step', '%s@loop%d' % (name, ordn), s3, self.inv_clause(text, s3, old), node)
+                    finally:
+                        self.iter_state = None
+                    s3.ghost['__iter_event_start__'] = outer_mark
                     if kind in ('normal', 'continue'):
                         for name, text in spec.invariants:
                             self.oblige('inv-keep', '%s@loop%d' % (name, ordn), s3, self.inv_clause(text, s3, old), node)
